@@ -23,7 +23,7 @@ theorem BrkParams.congr {inpW : Bytes} {sd : StateDef} {δ : Nat} {ms mw mw0 ms'
   ⟨by rw [h1]; exact h.np, by rw [h1]; exact h.skip, by rw [h2]; exact h.c0, by rw [h3]; exact h.x0, by rw [h4]; exact h.r0, h.q0⟩
 
 section
-variable {env : Env κ} {inpS inpW : Bytes} {δ : Nat} {K : Nat → κ → κ → Prop} {Loc : κ → Nat → Prop}
+variable {env : Env κ} {inpS inpW : Bytes} {δ : Nat} {K : Nat → κ → κ → Prop} {Loc : κ → Nat → Nat → TextType → Prop}
 
 /-- a common break as a step outcome -/
 theorem lock_of_break_both (F : Frame inpS inpW δ) (hcl : Closed inpS inpW δ) {fs : FlagMap} {st : StateId} {sd : StateDef}
